@@ -112,6 +112,8 @@ int main() {
                 const auto after = TA::km_key(X, other);
                 observe(before != after);
             }
+            // end of the case: both reader threads see end-of-stream, close their sockets and exit (the nodes stay allocated)
+            ::shutdown(sv[0], SHUT_RDWR); ::shutdown(sv[1], SHUT_RDWR);
         } else if (mode == 2) {
             crypto::Key shared{}; shared.bytes = in.id32();
             const auto material = in.bytes();
